@@ -397,6 +397,24 @@ fn drive_pattern(p: &str, names: &[String], do_match: bool) -> bool {
         Ok(pat) => {
             let _ = pat.pattern();
             if do_match {
+                // candidates cut from the pattern's own text: the first one, two,
+                // three characters of the pattern and of every alternative (a
+                // shortcut that looks at fixed positions of both strings meets a
+                // name that ends exactly there)
+                let pc: Vec<char> = p.chars().collect();
+                let mut cut = 0;
+                for i in 0..pc.len() {
+                    if i == 0 || matches!(pc[i - 1], '{' | ',' | '}') {
+                        for l in 1..=3usize {
+                            if i + l <= pc.len() && cut < 24 {
+                                let n: String = pc[i..i + l].iter().collect();
+                                let _ = pat.matches(&n);
+                                let _ = pat.best_match(&n, &n);
+                                cut += 1;
+                            }
+                        }
+                    }
+                }
                 for n in names {
                     let _ = pat.matches(n);
                 }
@@ -584,9 +602,19 @@ fn drive_pkgdb(ev: &mut Ev, r: &mut Rng, root: &std::path::Path) -> CaseResult {
     let a0 = allocs_now();
     match pkgsrc::pkgdb::PkgDB::open(&open) {
         Err(_) => ev.count("outcome/pkgdb/open-err"),
-        Ok(db) => {
+        Ok(mut db) => {
             let mut items = 0;
-            for item in db {
+            // the iterator is driven by hand - in pages of two through by_ref(),
+            // and polled again after it has reported the end (a caller that
+            // pages or counts first and reads later does exactly that): it has
+            // to return, whatever it returns
+            let paged = r.chance(1, 2);
+            loop {
+                let page: Vec<_> = if paged { db.by_ref().take(2).collect() } else { db.by_ref().take(1).collect() };
+                if page.is_empty() {
+                    break;
+                }
+                for item in page {
                 items += 1;
                 if items > expect_dirs + 8 {
                     return Err(format!("PkgDB iteration yielded {items} items for {expect_dirs} directories: does not terminate?").into());
@@ -604,7 +632,13 @@ fn drive_pkgdb(ev: &mut Ev, r: &mut Rng, root: &std::path::Path) -> CaseResult {
                     }
                     let _ = md.is_valid();
                 }
+                }
             }
+            for _ in 0..3 {
+                let _ = db.next();
+                ev.count("pkgdb/polled-after-the-end");
+            }
+            let _ = db.by_ref().count();
             ev.count("outcome/pkgdb/iterated");
         }
     }
